@@ -830,8 +830,8 @@ class Interp:
     def st_AnnAssign(self, cx, fr, st):
         if st.value is not None:
             v = self.eval(cx, fr, st.value)
-            if isinstance(v, dict) and not v:
-                tv = typed_empty_from_annotation(st.annotation)
+            if isinstance(v, (dict, list)) and not isinstance(v, SVal) and not v:
+                tv = typed_empty_from_annotation(st.annotation) if isinstance(v, dict) else None
                 hook = getattr(fr.spec, "empty_container", None)
                 if hook is not None and isinstance(st.target, ast.Name):
                     hv = hook(cx, st.target.id, ast.unparse(st.annotation))  # the spec's model of this (empty) container
@@ -1145,6 +1145,24 @@ class Interp:
 
     def ex_Name(self, cx, fr, e):
         return self.resolve_name(cx, fr, e.id)
+
+    def ex_Yield(self, cx, fr, e):
+        """`yield x` in the function under contract: the yielded values are collected in order (cx.yielded) for the
+        postcondition. Generators as callees are not read (they need a contract of their own)."""
+        if fr.spec is None or fr.qual != fr.spec.qual:
+            raise Unsupported("yield outside the function under contract")
+        if not hasattr(cx, "yielded"):
+            cx.yielded = []
+        cx.yielded.append(("one", self.eval(cx, fr, e.value) if e.value is not None else None))
+        return None
+
+    def ex_YieldFrom(self, cx, fr, e):
+        if fr.spec is None or fr.qual != fr.spec.qual:
+            raise Unsupported("yield from outside the function under contract")
+        if not hasattr(cx, "yielded"):
+            cx.yielded = []
+        cx.yielded.append(("from", self.eval(cx, fr, e.value)))
+        return None
 
     def ex_NamedExpr(self, cx, fr, e):
         v = self.eval(cx, fr, e.value)
